@@ -225,6 +225,140 @@ Section ReadLoop.
     read_loop (S (Z.to_nat plen)) c offset plen 0 [] [].
 End ReadLoop.
 
+(* ---------- fs/reader file.GetPassthroughFd: the whole file merged into one cache entry ---------- *)
+(* overwrite buf[pos : pos+len d] with d (the destination slice has already been bounds-checked) *)
+Definition overlay (buf : bytes) (pos : Z) (d : bytes) : bytes :=
+  firstn (Z.to_nat pos) buf ++ d ++ skipn (Z.to_nat pos + length d) buf.
+
+(* prefetchEntireFile, the inner loop that selects the chunks of one batch: chunks ending at or before the batch
+   are skipped, the first chunk starting at or after its end stops the loop; bufferPos accumulates the sizes *)
+Fixpoint pick (chs : list chunk) (bs be pos : Z) : list (chunk * Z) :=
+  match chs with
+  | [] => []
+  | ch :: t =>
+      if c_off ch + c_size ch <=? bs then pick t bs be pos
+      else if c_off ch >=? be then []
+      else (ch, pos) :: pick t bs be (pos + c_size ch)
+  end.
+
+(* checkHoles on the read infos (offset, size) in ascending offset order (the sort.Slice is the identity on the
+   ascending buffer positions the batch loop hands out and is not modelled) *)
+Fixpoint holes_loop (infos : list (Z * Z)) (e : Z) : option Z :=
+  match infos with
+  | [] => Some e
+  | (o, s) :: t => if o <? e then None else if o >? e then None else holes_loop t (o + s)
+  end.
+Definition check_holes (infos : list (Z * Z)) (total : Z) : bool :=
+  match infos with
+  | [] => true
+  | (o, _) :: _ => match holes_loop infos o with Some e => e =? total | None => false end
+  end.
+
+Section Passthrough.
+  Variable id : nat.
+  Variable lookup : Z -> option chunk.
+  Variable under : cache -> chunk -> option (bytes * cache).
+
+  (* the first loop of GetPassthroughFd: the chunks, their total size, "hasLargeChunk"; None = "invalid chunk" error *)
+  Fixpoint pt_enum (fuel : nat) (mbs offset total : Z) (large : bool) (acc : list chunk) : option (option (list chunk * Z * bool)) :=
+    match fuel with
+    | O => None                                   (* the Go loop would not terminate *)
+    | S fu =>
+        match lookup offset with
+        | None => Some (Some (acc, total, large))
+        | Some ch =>
+            let co := c_off ch in let cs := c_size ch in
+            if negb (co =? offset) || (cs <=? 0) || (co + cs <? co) then Some None
+            else
+              let l1 := large || (cs >? mbs) in
+              let l2 := l1 || ((mbs >? 0) && negb (Z.quot co mbs =? Z.quot (co + cs - 1) mbs)) in
+              pt_enum fu mbs (co + cs) (total + cs) l2 (acc ++ [ch])
+        end
+    end.
+
+  (* one chunk into a destination of cs bytes: from the cache when it holds at least cs bytes, else from the
+     underlying reader. Returns the bytes that land in the destination and the number the code takes as read *)
+  Definition pt_chunk (c : cache) (ch : chunk) : option (bytes * cache) :=
+    let cs := c_size ch in
+    match c (id, c_off ch, cs) with
+    | Some v => if zlen (slice 0 cs v) =? cs then Some (slice 0 cs v, c) else under c ch
+    | None => under c ch
+    end.
+
+  (* prefetchEntireFileSequential *)
+  Fixpoint pt_seq (fuel : nat) (c : cache) (offset : Z) (acc : bytes) : rres * cache :=
+    match fuel with
+    | O => (ROutOfFuel, c)
+    | S fu =>
+        match lookup offset with
+        | None => (ROk acc, c)                     (* w.Commit() *)
+        | Some ch =>
+            if c_size ch <? 0 then (RPanic, c)     (* b.Bytes()[:chunkSize] *)
+            else match pt_chunk c ch with
+                 | None => (RErr, c)
+                 | Some (d, c1) =>
+                     if zlen d =? c_size ch then pt_seq fu c1 (c_off ch + c_size ch) (acc ++ d)
+                     else (RShortUnder, c1)
+                 end
+        end
+    end.
+
+  (* processBatchChunks for all workers of one batch. The workers write disjoint regions of the buffer, so the order
+     in which the chunks are handled does not matter; with workerCount <= 0 no worker is started at all *)
+  Fixpoint pt_fill (picks : list (chunk * Z)) (c : cache) (buf : bytes) (infos : list (Z * Z))
+    : rres * cache * bytes * list (Z * Z) :=
+    match picks with
+    | [] => (ROk [], c, buf, infos)
+    | (ch, pos) :: t =>
+        (* args.buffer[chunk.bufferPos : chunk.bufferPos+chunk.size] *)
+        if (pos <? 0) || (c_size ch <? 0) || (pos + c_size ch >? zlen buf) then (RPanic, c, buf, infos)
+        else match pt_chunk c ch with
+             | None => (RErr, c, buf, infos)
+             | Some (d, c1) => pt_fill t c1 (overlay buf pos d) (infos ++ [(pos, zlen d)])
+             end
+    end.
+
+  (* prefetchEntireFile: the batches *)
+  Fixpoint pt_batches (nb : nat) (b : Z) (chs : list chunk) (total mbs : Z) (workers : Z) (c : cache) (acc : bytes) : rres * cache :=
+    match nb with
+    | O => (ROk acc, c)                            (* w.Commit() *)
+    | S nb' =>
+        let bs := b * mbs in
+        let be := Z.min ((b + 1) * mbs) total in
+        let picks := pick chs bs be 0 in
+        let size := be - bs in
+        if size <? 0 then (RPanic, c)              (* make([]byte, batchSize) *)
+        else
+          let buf0 := repeat 0%N (Z.to_nat size) in
+          let '(r, c1, buf, infos) := if workers <=? 0 then (ROk [], c, buf0, []) else pt_fill picks c buf0 [] in
+          match r with
+          | ROk _ => if check_holes infos size then pt_batches nb' (b + 1) chs total mbs workers c1 (acc ++ buf)
+                     else (RErr, c1)
+          | _ => (r, c1)
+          end
+    end.
+
+  (* GetPassthroughFd: what the returned file holds *)
+  Definition pt_fd (fuel : nat) (c : cache) (mbs workers : Z) : rres * cache :=
+    match pt_enum fuel mbs 0 0 false [] with
+    | None => (ROutOfFuel, c)
+    | Some None => (RErr, c)
+    | Some (Some (chs, total, large)) =>
+        let k : key := (id, 0, total) in
+        match c k with
+        | Some v => (ROk v, c)                     (* already merged: the cached file is handed out *)
+        | None =>
+            let '(r, c1) :=
+              if large || (workers <=? 0) || (mbs <=? 0) then pt_seq fuel c 0 []
+              else pt_batches (Z.to_nat (Z.quot (total + mbs - 1) mbs)) 0 chs total mbs workers c [] in
+            match r with
+            | ROk d => (ROk d, cadd c1 k d)        (* committed, then handed out by the retried Get *)
+            | _ => (r, c1)
+            end
+        end
+    end.
+End Passthrough.
+
 (* ---------- a layer: files with their content, chunk table and gzip-member grouping ---------- *)
 Record file := mkFile {
   f_db : bool;                     (* served by the db metadata store (else: the memory store) *)
@@ -270,6 +404,10 @@ Definition read_file_env (L : layer) (i : nat) (env : nat -> bool -> cache -> ca
 Definition read_file (L : layer) (i : nat) (c : cache) (off len : Z) : rres * cache * list ev :=
   read_file_env L i (fun _ _ c => c) c off len.
 
+Definition pt_file (L : layer) (i : nat) (c : cache) (mbs workers : Z) : rres * cache :=
+  let f := file_at L i in
+  pt_fd i (lookup_of f) (under_layer L i) (S (Z.to_nat (zlen (f_data f)))) c mbs workers.
+
 (* every (id, chunk) key of the layer, as the prefetch walk (VerifiableReader.Cache: nr += chunkSize) enumerates them *)
 Fixpoint walk_chunks (fuel : nat) (lookup : Z -> option chunk) (i : nat) (nr size : Z) : list key :=
   match fuel with
@@ -290,6 +428,7 @@ Definition layer_keys (L : layer) : list key := flat_map (file_keys L) (seq 0 (l
 Inductive op :=
 | Read (i : nat) (off len : Z)        (* OpenFile(id).ReadAt(p, off), len(p) = len *)
 | ReadI (i : nat) (off len : Z) (env : nat -> bool -> cache -> cache)   (* the same, interleaved with interference *)
+| Pt (i : nat) (mbs workers : Z)      (* OpenFile(id).GetPassthroughFd(mergeBufferSize, mergeWorkerCount): the merged file *)
 | Prefetch                            (* VerifiableReader.Cache(): every chunk of every regular file is cached *)
 | Evict (ks : list key)               (* these keys disappear from the cache *)
 | Env (c : cache).                    (* any interference: the cache is replaced by an arbitrary (honest) one *)
@@ -298,6 +437,7 @@ Definition step (L : layer) (c : cache) (o : op) : cache * option (rres * list e
   match o with
   | Read i off len => let '(r, c', tr) := read_file L i c off len in (c', Some (r, tr))
   | ReadI i off len env => let '(r, c', tr) := read_file_env L i env c off len in (c', Some (r, tr))
+  | Pt i mbs workers => let '(r, c') := pt_file L i c mbs workers in (c', Some (r, []))
   | Prefetch => (add_honest L c (layer_keys L), None)
   | Evict ks => (fold_left cdel ks c, None)
   | Env c' => (c', None)
